@@ -381,3 +381,23 @@ if __name__ == "__main__":
     d = tempfile.mkdtemp(prefix="c13gen.", dir="/var/tmp")
     rep = generate(sys.argv[1] if len(sys.argv) > 1 else os.path.join(d, "abi__c13_gen.rs"), d)
     print(json.dumps(rep, indent=1))
+
+
+def generate_koff(out_path, scratch):
+    """kernel offsets/sizes as Rust constants for the opcode harnesses (oracle = C compiler)."""
+    cstructs, cenums, cdefines = parse_c_header(FUSE_H)
+    table, _ = run_c_oracle(scratch, cstructs, cenums, cdefines)
+    out = ["// GENERATED from /usr/include/linux/fuse.h by the C compiler (engine/gen_c13.py generate_koff)",
+           "#![allow(dead_code)]"]
+    for sname, info in sorted(table["structs"].items()):
+        if not sname.startswith("fuse_"):
+            continue
+        stem = sname[5:].upper()
+        out.append("pub const K_%s_SIZE: usize = %d;" % (stem, info["size"]))
+        for d, off, w in info["leaves"]:
+            ident = re.sub(r"[^A-Za-z0-9]+", "_", d).strip("_").upper()
+            out.append("pub const K_%s__%s: usize = %d;" % (stem, ident, off))
+    for k in ("FUSE_COMPAT_SETXATTR_IN_SIZE", "FUSE_COMPAT_INIT_OUT_SIZE", "FUSE_COMPAT_22_INIT_OUT_SIZE"):
+        out.append("pub const K_%s: usize = %d;" % (k[5:], table["consts"][k]))
+    open(out_path, "w").write("\n".join(out) + "\n")
+    return {"header": FUSE_H, "structs": len(table["structs"])}
